@@ -1,6 +1,6 @@
 import Iscp.Model.Call
 import Driver.Util
-/- topic `call` (C16): reset · call c k [wait] · sync k · ack k ok|no · ackunknown · reply tok k · replyunknown tok · incomingn t1,t2 · cancel c · kill · rt n -/
+/- topic `call` (C16): reset · call c k [wait] · sync k · ack k ok|no · ackunknown · reply tok k · replyunknown tok · incomingn t1,t2 · cancel c · kill · rt n · storm n · stormcut n -/
 namespace Driver.Call
 open Iscp Iscp.Call Driver
 
@@ -20,6 +20,15 @@ def barrier (d : D) : D :=
   | none => d
 
 def nat (s : String) : Nat := s.toNat?.getD 0
+
+/-- n callers at once (stormcut: an outage with all n calls in flight; every call is re-sent and acknowledged on the new
+    connection): the number of callers that return the ack of their own call -/
+def stormOk (s : St) (n : Nat) : Nat :=
+  let ks := (List.range n).map (· + 200000)
+  let s1 := ks.foldl (fun s k => call s (k - 199000) k false) s
+  (ks.foldl (fun (acc : St × Nat) k => match ack acc.1 k true with
+    | (s', .returnedOk c) => (s', if c = k - 199000 then acc.2 + 1 else acc.2)
+    | (s', _) => (s', acc.2)) (s1, 0)).2
 
 def step (d : D) (line : String) : D × String :=
   match words line with
@@ -62,6 +71,8 @@ def step (d : D) (line : String) : D × String :=
         | (s3, _) => go m (k + 1) s3 ok
     let (s', ok) := go (nat n) 100000 d.s 0
     ({ d with s := { s' with replyInbox := [] } }, s!"ok {ok} inbox={s'.replyInbox.length}")
+  | ["storm", n] => (d, "storm ok " ++ toString (stormOk d.s (nat n)))
+  | ["stormcut", n] => (d, "stormcut ok " ++ toString (stormOk d.s (nat n)))
   | ["cancel", c] => let (s', o) := cancel d.s (nat c); ({ d with s := s' }, showOut o)
   | ["kill"] => (d, "reconnected")
   | _ => (d, "bad-op")
